@@ -2638,9 +2638,9 @@ class RedunClient:
             logger.info("oneshot:  redun {argv}".format(argv=" ".join(map(quote, argv[1:]))))
 
             # If output already exists, exit.
-            if output_path and not args.no_cache:
+            if output_path:
                 output_file = BaseFile(output_path)
-                if output_file.exists():
+                if not args.no_cache and output_file.exists():
                     with output_file.open("rb") as infile:
                         result = pickle.load(infile)
                     if get_type_registry().is_valid_nested(result):
